@@ -137,6 +137,31 @@ CLAIMED.update({
         "design": "DESIGN.md section 3 C16",
     },
 })
+CLAIMED.update({
+    "C18": {
+        "text": "Contract-based deductive proof of gel.py: _edge_key (canonical undirected key), _clamp, observe_retrieval (gate off: "
+                "untouched; used = first top_k of the items above threshold under (-score,id); pairs <= pair_cap; only canonical keys of "
+                "used pairs written, weights inside the clamp, everything else unchanged), tick (factor in (0,1], no key added, removed iff "
+                "|w*f| < floor, |w'| <= |w|, counters exact), apply_merge/apply_split (annotation only), apply_promotion (concept node and "
+                "concept-member edges only; idempotent), promote_clusters (pure, sorted); history lemma 'weights stay inside the clamp' "
+                "proved for observe always and for tick when clamp_min <= 0 <= clamp_max (the validator-accepted clamp_min > 0 case is a "
+                "known finding).",
+        "note": "Floats are reals (NaN not modelled; spot-checked natively that NaN fails the threshold test); edge records have the fixed "
+                "layout of gel.py; items are (id, score) tuples; order-insensitivity of observe is implied by the selection clauses for "
+                "distinct (id, score) pairs but not machine-checked as a two-run lemma.",
+        "design": "DESIGN.md section 3 C18",
+    },
+})
+CLAIMED["C15"]["text"] += (" Also cache.py: _NamespaceCache / LRUCache / CacheManager over an insertion-ordered map model (TTL with the injected "
+    "clock, oldest-first eviction, exact counters, namespace isolation with verified frames), ThreadSafe wrappers (Engine-F lock discipline: "
+    "every method body is one `with self._lock` block and _inner is touched only inside it), merge_caches_deterministic (sorted worker and "
+    "key order, first-wins).")
+CLAIMED["C15"]["note"] += " CacheManager is verified for fixed namespace shapes (two existing + one new namespace); invalidate_all/stats are bounded to that shape."
+CLAIMED["C19"]["text"] += (" Per-function contracts: _truncate_tokens (<= max(limit,0) tokens), _reflect_rulebased/_reflect_llm (<= 1 entry, 0 when "
+    "ops cap <= 0, summary within the token limit), write_reflection_entries (written <= min(entries, cap), never raises), _episode_id / "
+    "_now_iso_from_ctx (functions of agent, turn, slot, text / now_iso, now_ms only).")
+CLAIMED["C19"]["note"] = ("str.split/join: two documented axioms; sha256 and _normalize are uninterpreted deterministic functions; the LLM fixture "
+    "adapter and the embedding are trusted; fixture files are not modelled.")
 PENDING_REASON = "check not built yet (construction in progress, see DESIGN.md section 3)"
 NA = {}
 
